@@ -115,6 +115,40 @@ def manifest_file_names(root, mans):
     return names
 
 
+def listed_as(mans, path):
+    """Tags of the file entries naming @path in the Manifest files @mans."""
+    tags = set()
+    for mp, ents in mans.items():
+        mdir = os.path.dirname(mp)
+        for e in ents:
+            if e['tag'] in mtext.FILE_TAGS and mtext.full_path(mdir, e) == path:
+                tags.add(e['tag'])
+    return tags
+
+
+def overwritten_by_profile_manifest(mans0, mans1, tag):
+    """Files that lost @tag lines and were, before, files with a compressed Manifest
+    name listed only by non-MANIFEST entries (data files as far as verification is
+    concerned) in a directory without any other Manifest, and are the directory's
+    MANIFEST-referenced Manifest now: the profile created `Manifest` next to such a
+    file and its compression renamed it over the file (known finding D33).
+    -> (those files, every file that lost lines)"""
+    losers, hit = set(), set()
+    for mp, ents in mans0.items():
+        a = collections.Counter(mtext.entry_line(e) for e in ents if e['tag'] == tag)
+        b = collections.Counter(mtext.entry_line(e) for e in mans1.get(mp, [])
+                                if e['tag'] == tag)
+        if a - b:
+            losers.add(mp)
+            t0 = listed_as(mans0, mp)
+            alone = not any(os.path.dirname(o) == os.path.dirname(mp) and o != mp
+                            for o in mans0)
+            if mtext.suffix_of(mp) and t0 and 'MANIFEST' not in t0 and alone \
+                    and 'MANIFEST' in listed_as(mans1, mp):
+                hit.add(mp)
+    return hit, losers
+
+
 def lines_of(mans, tag):
     c = collections.Counter()
     for mp, ents in mans.items():
@@ -166,11 +200,63 @@ def do_op(ctx, m, root, op, case):
         return 'raised'
 
 
+class RecordingDict(dict):
+    """loaded_manifests replacement remembering every key it ever held."""
+
+    def __init__(self, init, seen):
+        dict.__init__(self, init)
+        self.seen = seen
+        seen.update(init)
+
+    def __setitem__(self, k, v):
+        self.seen.add(k)
+        dict.__setitem__(self, k, v)
+
+    def update(self, *a, **kw):
+        tmp = dict(*a, **kw)
+        self.seen.update(tmp)
+        dict.update(self, tmp)
+
+    def setdefault(self, k, d=None):
+        self.seen.add(k)
+        return dict.setdefault(self, k, d)
+
+
+class LoadedAtSave:
+    """Records which Manifests the loader ever held (the entries gemato knows about
+    are the entries of those)."""
+
+    def __enter__(self):
+        from gemato.recursiveloader import ManifestRecursiveLoader as L
+        self.cls = L
+        self.orig = L.__init__
+        self.loaded = set()
+        tracker = self
+
+        def __init__(loader, *a, **kw):
+            # (the constructor loads the top-level Manifest: install first)
+            loader.loaded_manifests = RecordingDict({}, tracker.loaded)
+            tracker.orig(loader, *a, **kw)
+            if not isinstance(loader.loaded_manifests, RecordingDict):
+                loader.loaded_manifests = RecordingDict(loader.loaded_manifests,
+                                                        tracker.loaded)
+        L.__init__ = __init__
+        return self
+
+    def __exit__(self, *exc):
+        self.cls.__init__ = self.orig
+
+
 def beneath_any(path, scopes):
     return any(mtext.comp_prefix(path, s) for s in scopes)
 
 
 def judge(ctx, root, case):
+    with LoadedAtSave() as tracker:
+        return judge1(ctx, root, case, tracker)
+
+
+def judge1(ctx, root, case, tracker):
     from gemato.recursiveloader import ManifestRecursiveLoader
     snap0 = gtree.snapshot(root)
     mans0 = manifest_state(root)
@@ -309,8 +395,11 @@ def judge(ctx, root, case):
         if a != b:
             lost = list((a - b).elements())[:3]
             gained = list((b - a).elements())[:3]
-            ctx.violation('%s-lines-not-preserved' % tag,
-                          '%s lines lost %r / gained %r' % (tag, lost, gained), case,
+            key = '%s-lines-not-preserved' % tag
+            hit, losers = overwritten_by_profile_manifest(mans0, mans1, tag)
+            if case.get('profile') and hit and hit == losers and not (b - a):
+                key += ':data-listed-compressed-manifest-overwritten-by-profile-manifest'
+            ctx.violation(key, '%s lines lost %r / gained %r' % (tag, lost, gained), case,
                           detail)
             return
     a, b = lines_of(mans0, 'TIMESTAMP'), lines_of(mans1, 'TIMESTAMP')
@@ -323,17 +412,28 @@ def judge(ctx, root, case):
         ctx.violation('TIMESTAMP-added', 'a TIMESTAMP appeared without -t', case,
                       detail)
         return
-    fe0, fe1 = file_entries(mans0), file_entries(mans1)
+    # "existing file entries" are those of the Manifests the loader held when it
+    # saved; a file that merely has a Manifest name (listed as plain DATA, or not at
+    # all) and was never loaded is not part of the Manifest tree, and an entry in it
+    # is not an existing entry for the path
+    held = tracker.loaded
+    if not held:
+        ctx.count('type_rule_skipped_nothing_held')
+    fe0 = file_entries({mp: e for mp, e in mans0.items() if mp in held})
+    fe1 = file_entries({mp: e for mp, e in mans1.items()
+                        if mp in held or mp not in mans0})
     for p, after in fe1.items():
         before = fe0.get(p)
         if not before:
             continue
+        ctx.count('type_rule_entries_compared')
         tb = {t for t, s, c in before}
         for t, s, c in after:
             if t not in tb:
                 ctx.violation('entry-type-changed', 'entry for %r changed type %r -> %r'
                               % (p, sorted(tb), t), case, detail)
                 return
+    fe0, fe1 = file_entries(mans0), file_entries(mans1)
     # ---- entries outside the updated directories
     for dp, dn, fn in os.walk(root):
         if any(os.path.islink(os.path.join(dp, x)) for x in dn):
@@ -489,6 +589,45 @@ def run_multi(ctx, rng, idx):
                           case)
 
 
+def build_adopt_tree(root, case):
+    os.makedirs(os.path.join(root, 'cat', 'pkg', 'tmp'))
+    files = {'cat/pkg/p-1.ebuild': b'EAPI=8\n', 'cat/pkg/metadata.xml': b'<x/>\n',
+             'cat/pkg/tmp/junk': b'j', 'README': b'r'}
+    for pth, data in files.items():
+        with open(os.path.join(root, pth), 'wb') as f:
+            f.write(data)
+    pk = [{'tag': 'DIST', 'path': 'p-1.tar.gz', 'size': 100,
+           'sums': {'SHA512': 'ab' * 64}},
+          {'tag': 'DIST', 'path': 'p-0.tar.gz', 'size': 99, 'sums': {'MD5': 'cd' * 16}},
+          {'tag': 'IGNORE', 'path': 'tmp'},
+          mtext.file_entry('EBUILD' if case['stale'] else 'DATA', 'p-1.ebuild',
+                           b'old' if case['stale'] else files['cat/pkg/p-1.ebuild'],
+                           ['SHA256'])]
+    ptext = mtext.render(pk).encode()
+    mname = case.get('name', 'Manifest')
+    if mname.endswith('.gz'):
+        import gzip
+        ptext = gzip.compress(ptext, mtime=0)
+    elif mname.endswith('.xz'):
+        import lzma
+        ptext = lzma.compress(ptext)
+    elif mname.endswith('.bz2'):
+        import bz2
+        ptext = bz2.compress(ptext)
+    with open(os.path.join(root, 'cat', 'pkg', mname), 'wb') as f:
+        f.write(ptext)
+    top = [mtext.file_entry('DATA', 'README', files['README'], ['SHA256'])]
+    if case['listed'] == 'manifest':
+        top.append(mtext.file_entry('MANIFEST', 'cat/pkg/' + mname, ptext, ['SHA256']))
+    elif case['listed'] == 'data':
+        top.append(mtext.file_entry('DATA', 'cat/pkg/' + mname, ptext, ['SHA256']))
+    elif case['listed'] == 'misc':
+        top.append(mtext.file_entry('MISC', 'cat/pkg/' + mname, ptext, ['SHA256']))
+    with open(os.path.join(root, 'Manifest'), 'w') as f:
+        f.write(mtext.render(top))
+    return mname
+
+
 def exec_adopt(ctx, case):
     """A package Manifest carrying DIST and IGNORE lines already exists where an
     ebuild profile wants a Manifest, and the parent knows it in various ways (proper
@@ -497,35 +636,11 @@ def exec_adopt(ctx, case):
     from gemato import cli as gcli
     with common.Scratch('vf-c10a-') as d:
         root = os.path.join(d, 't')
-        os.makedirs(os.path.join(root, 'cat', 'pkg', 'tmp'))
-        files = {'cat/pkg/p-1.ebuild': b'EAPI=8\n', 'cat/pkg/metadata.xml': b'<x/>\n',
-                 'cat/pkg/tmp/junk': b'j', 'README': b'r'}
-        for pth, data in files.items():
-            with open(os.path.join(root, pth), 'wb') as f:
-                f.write(data)
-        pk = [{'tag': 'DIST', 'path': 'p-1.tar.gz', 'size': 100,
-               'sums': {'SHA512': 'ab' * 64}},
-              {'tag': 'DIST', 'path': 'p-0.tar.gz', 'size': 99, 'sums': {'MD5': 'cd' * 16}},
-              {'tag': 'IGNORE', 'path': 'tmp'},
-              mtext.file_entry('EBUILD' if case['stale'] else 'DATA', 'p-1.ebuild',
-                               b'old' if case['stale'] else files['cat/pkg/p-1.ebuild'],
-                               ['SHA256'])]
-        ptext = mtext.render(pk).encode()
-        with open(os.path.join(root, 'cat', 'pkg', 'Manifest'), 'wb') as f:
-            f.write(ptext)
-        top = [mtext.file_entry('DATA', 'README', files['README'], ['SHA256'])]
-        if case['listed'] == 'manifest':
-            top.append(mtext.file_entry('MANIFEST', 'cat/pkg/Manifest', ptext, ['SHA256']))
-        elif case['listed'] == 'data':
-            top.append(mtext.file_entry('DATA', 'cat/pkg/Manifest', ptext, ['SHA256']))
-        elif case['listed'] == 'misc':
-            top.append(mtext.file_entry('MISC', 'cat/pkg/Manifest', ptext, ['SHA256']))
-        with open(os.path.join(root, 'Manifest'), 'w') as f:
-            f.write(mtext.render(top))
+        mname = build_adopt_tree(root, case)
         mans0 = manifest_state(root)
         keep0 = lines_of(mans0, 'DIST') + lines_of(mans0, 'IGNORE')
         ctx.case(sig=('adopt', case['listed'], case['profile'], case['api'],
-                      case['stale']), case=case, klass='adopt')
+                      case['stale'], mname), case=case, klass='adopt')
         argv = ['gemato', 'update', '-p', case['profile'], '--hashes', 'SHA256', root]
         try:
             if case['api'] == 'cli':
@@ -550,8 +665,12 @@ def exec_adopt(ctx, case):
         keep1 = lines_of(mans1, 'DIST') + lines_of(mans1, 'IGNORE')
         lost = keep0 - keep1
         if lost:
-            ctx.violation('DIST-lines-not-preserved' if any(
-                ln.startswith('DIST') for ln in lost) else 'IGNORE-lines-not-preserved',
+            tag = 'DIST' if any(ln.startswith('DIST') for ln in lost) else 'IGNORE'
+            hit, losers = overwritten_by_profile_manifest(mans0, mans1, tag)
+            sfx = ''
+            if hit and hit == losers:
+                sfx = ':data-listed-compressed-manifest-overwritten-by-profile-manifest'
+            ctx.violation(tag + '-lines-not-preserved' + sfx,
                 'update -p %s (rc %r) on a tree whose package Manifest (known to the '
                 'parent as: %s) carried them lost %r' % (
                     case['profile'], rc, case['listed'], sorted(lost)[:3]), case)
@@ -563,8 +682,11 @@ def run_adopt(u, ctx):
         for profile in ('ebuild', 'old-ebuild'):
             for api in ('cli', 'lib'):
                 for stale in (False, True):
-                    exec_adopt(ctx, {'kind': 'adopt', 'listed': listed,
-                                     'profile': profile, 'api': api, 'stale': stale})
+                    for name in ('Manifest', 'Manifest.gz', 'Manifest.xz',
+                                 'Manifest.bz2'):
+                        exec_adopt(ctx, {'kind': 'adopt', 'listed': listed,
+                                         'profile': profile, 'api': api,
+                                         'stale': stale, 'name': name})
 
 
 def run_unit(u, ctx):
